@@ -24,6 +24,7 @@ type invocationDetails struct {
 	signatureArgs    []string
 	signersCount     int
 	keyTypes         []pb.KeyType
+	requiredSigns    int
 }
 
 // validateAndExtractInvocationContext verifies authorization and extracts the context of the chincode method call.
@@ -86,6 +87,15 @@ func (cc *Chaincode) validateAndExtractInvocationContext(
 		}
 	}
 
+	// A single key must sign; a multisig account needs at least N distinct valid signatures.
+	invocation.requiredSigns = 1
+	if invocation.signersCount > 1 {
+		invocation.requiredSigns = invocation.signersCount
+		if n := int(acl.GetAddress().GetSignaturePolicy().GetN()); n > 0 && n < invocation.signersCount {
+			invocation.requiredSigns = n
+		}
+	}
+
 	// Form a message to verify the signature.
 	message := []byte(fn + strings.Join(args[:len(args)-invocation.signersCount], ""))
 
@@ -113,6 +123,7 @@ func validateSignaturesInInvocation(
 	invocation *invocationDetails,
 	message []byte,
 ) error {
+	verified := make(map[string]struct{}, invocation.signersCount)
 	for i := 0; i < invocation.signersCount; i++ {
 		if invocation.signatureArgs[i+invocation.signersCount] == "" {
 			continue // Skip the blank signatures.
@@ -131,6 +142,10 @@ func validateSignaturesInInvocation(
 		if !valid {
 			return errors.New("incorrect signature")
 		}
+		verified[invocation.signatureArgs[i]] = struct{}{}
+	}
+	if len(verified) < invocation.requiredSigns {
+		return fmt.Errorf("not enough valid signatures: found %d but expected %d", len(verified), invocation.requiredSigns)
 	}
 	return nil
 }
